@@ -214,7 +214,7 @@ class C09(Property):
         yield from self.gen_ranges(True)
         yield from self.gen_chunk_window(True)
         yield from self.gen_split_strip(7)
-        for _ in range(150000):
+        for _ in range(100000):
             yield self.random_case(rng, big=rng.random() < 0.3)
 
     def gen_chunk_window(self, th):
@@ -436,6 +436,12 @@ class C09(Property):
         op = case['op']
         self.stats[op] = self.stats.get(op, 0) + 1
         obs = {'r': self.call(case, False)}
+        if 'kind' in case:
+            k = 'kind:' + case['kind']
+            self.stats[k] = self.stats.get(k, 0) + 1
+        if 'exc' in obs['r']:
+            k = 'exc:' + obs['r']['exc']
+            self.stats[k] = self.stats.get(k, 0) + 1
         if op in ('chunked', 'windowed', 'pairwise', 'split', 'lstrip', 'rstrip', 'strip', 'unique') \
                 and not (op == 'chunked' and case['count'] is not None):
             obs['ri'] = self.call(case, True)
